@@ -5,7 +5,7 @@ CONSTANTS
   Kind = "nameaddr"
   Atoms <- AtomsPoss
   Prefix <- PfxNone
-  MaxLen = 7
+  MaxLen = 5
   Cfgs <- CfgsNA18
   Junk = 34
   EmitOn = TRUE
